@@ -7,6 +7,7 @@ import re
 import common as C
 import gen as G
 import cont
+import containercodec
 from codecloop import payload, zz, read_zz
 
 STREAM_CODECS = ["(deflate default)", "(deflate 1)", "(bzip2 default)", "(xz default)", "(zstandard default)"]
@@ -291,6 +292,11 @@ def run_valid(rng, tier):
     mres = C.run_parallel(C.AVROMODEL, mlines)
     for (b, where, line), mr in zip(mmeta, mres):
         compare_end(b, mr, where, line, diffs, stats)
+    # (4) the WHOLE file through the model of the compressed-file reader (ContainerCodec.ccr_file, decoder replayed from the trace)
+    wf = containercodec.compare([{"file": fl["file"], "cap": cap, "mode": mode, "ncalls": len(fl["payload"].expected()) + 3, "res": r,
+                                  "where": "%s %s capacity %d %s" % (fl["codec"], fl["payload"].name, cap, mode)}
+                                 for (fl, cap, mode), r in zip(meta, res)])
+    diffs.extend(wf["diffs"])
     pr = run_dprobe(rng, tier, files)
     diffs.extend(pr["diffs"])
     notes = {"decode_side": {
@@ -301,8 +307,9 @@ def run_valid(rng, tier):
         "decoder_reads": stats["reads"], "reads_after_which_all_data_was_out_but_the_stream_not_consumed(lag)": stats["lagging_reads"],
         "contract": "DecodeLoop.stream_decoder_contract on the reads the crate made (lengths) and on direct probes of the decoder types the crate uses (bytes): flate2/miniz_oxide, bzip2, xz2, zstd",
         "contract_clauses_validated(blocks meeting the clause)": stats["clause_ok"], "contract_clauses_failed": stats["clause_bad"],
-        "direct_probes": pr["notes"]}}
-    return {"evaluations": len(lines) + len(mlines) + pr["evaluations"], "violations": violations, "diffs": diffs, "samples": samples, "notes": notes,
+        "direct_probes": pr["notes"]},
+        "whole_file_reader_model_vs_crate(valid files)": wf["notes"]}
+    return {"evaluations": len(lines) + len(mlines) + pr["evaluations"] + wf["evaluations"], "violations": violations, "diffs": diffs, "samples": samples, "notes": notes,
             "distinct": set((m[0]["codec"], m[0]["payload"].name, m[1], m[2]) for m in meta)}
 
 # ---------------------------------------------------------------- the decoders themselves (dprobe)
@@ -459,6 +466,7 @@ def run_damaged(rng, tier):
     violations.extend(bad)
     lines, meta = [], []
     smodel = []
+    wjobs = []
     caps = [1, 7, 0] if tier == "quick" else CAPS
     modes = ["slice", "(chunks 1)", "(chunks 7)"] if tier == "quick" else MODES
     for fl in files:
@@ -468,12 +476,17 @@ def run_damaged(rng, tier):
                 for mode in modes:
                     lines.append("crt %d %s %s any %d" % (cap, C.hx(g), mode, n))
                     meta.append((fl, kind, junk, cap, mode))
+                    wjobs.append({"file": g, "cap": cap, "mode": mode, "ncalls": n, "where": "%s %s %s capacity %d %s" % (fl["codec"], fl["payload"].name, kind, cap, mode)})
                     if sblock is not None:
                         # the model of the snappy arm on the bytes of the damaged block: raw codec abstract (= the pair
                         # (data, compressed) of the block as written), CRC32 = the one the writer stored
                         z0 = fl["blocks"][0]["z"]
                         smodel.append((len(lines) - 1, "snappy %s %s %d %s" % (C.hx(fl["payload"].data(0)), C.hx(z0[:-4]), int.from_bytes(z0[-4:], "big"), C.hx(sblock))))
     res = C.run_parallel(C.AVRODRIVE, lines)
+    # the WHOLE damaged file through the model of the compressed-file reader (ContainerCodec.ccr_file, decoder replayed from the trace)
+    for j, r in zip(wjobs, res):
+        j["res"] = r
+    wf = containercodec.compare([j for j in wjobs if "(panic" not in j["res"] and "(crash" not in j["res"]])
     mlines, mmeta = [], []
     dist = {}
     accepted = {}
@@ -553,6 +566,8 @@ def run_damaged(rng, tier):
         "end_of_block_checks_replayed_through_model": stats["end_checks"], "crate_decisions": stats["end_decisions"],
         "checks_the_pre-8463ea9_test_would_decide_differently": stats["before_fix_would_differ"],
         "contract_clauses_validated(blocks meeting the clause)": stats["clause_ok"], "contract_clauses_failed": stats["clause_bad"],
-        "blocks_holding_the_stream_twice_read_without_error(by codec)": accepted}}
-    return {"evaluations": len(lines) + len(mlines), "violations": violations, "diffs": diffs, "samples": samples, "notes": notes,
+        "blocks_holding_the_stream_twice_read_without_error(by codec)": accepted},
+        "whole_file_reader_model_vs_crate(damaged files)": wf["notes"]}
+    diffs.extend(wf["diffs"])
+    return {"evaluations": len(lines) + len(mlines) + wf["evaluations"], "violations": violations, "diffs": diffs, "samples": samples, "notes": notes,
             "distribution": dist, "distinct": set((m[0]["codec"], m[0]["payload"].name, m[1], m[3], m[4]) for m in meta)}
